@@ -216,6 +216,17 @@ def run(pid, tier):
         chk.model_violation("MCLock", r)
     vlib.require_ok(r, "MCLock")
     chk.add_model("MCLock/Lock", r, "3 contenders x 4 APIs")
+    if tier == "thorough":
+        # the composed system (Changes x Store x checkpoint file x lock, two invocations in flight, environment edits):
+        # checkpoint and store only ever change in steps of the lock holder; readers never see a torn result
+        mono = ('CONSTANTS Procs = {1, 2}\n Paths = {"af", "bf"}\n Cfg <- MCCfg\n Comp <- MCComp\n N = 2\n MaxRuns = 2\n'
+                ' MaxCommits = 2\n MaxEdits = 2\nSPECIFICATION Spec\nINVARIANTS AtMostOneHolder ResultShowNeverTorn '
+                'RunCoversAffected AnalyzeNeverMixes\nPROPERTIES MutationsUnderLock\nCHECK_DEADLOCK FALSE\n')
+        r2 = vlib.tlc("mc/MCMonorail", mono, workers=10, timeout=3000, xmx="20g")
+        if r2.violated:
+            chk.model_violation("MCMonorail", r2)
+        vlib.require_ok(r2, "MCMonorail")
+        chk.add_model("MCMonorail/Monorail", r2, "2 invocations, 2 paths, N=2, 2 runs, 2 commits, 2 edits")
     # every holder API x every way of ending x contenders covering every API
     specs = []
     for h in APIS:
